@@ -393,4 +393,62 @@ theorem tie_cond_model :
     ∧ (∀ d, (waitResult d .timerFired) = (0, false)) := by
   exact ⟨fun _ _ => rfl, by decide, fun _ => rfl⟩
 
+/-! ## round 5e: channel capacities, translated -/
+
+/-- **The capacity of every limiting channel is the configured number, for all values**: `NewLimit(n)` makes a channel
+of capacity `n` (= `(Sem.init n).cap`, `(St.init n).cap`), `NewTaskRunner(c)` of `c`, `executeMappers` of
+`mCtx.workers`, `walkLimited`'s `pool` of `option.workers`; `NewCond`'s channel is unbuffered (capacity 0: the
+rendezvous of ModelTL / ModelCond).  (`n + 1`, a constant or another field in any of them breaks this.) -/
+theorem tie_capacities :
+    (∀ n : Int, newLimitCap n = n) ∧ (∀ n : Nat, newLimitCap n = ((Sem.init n).cap : Int) ∧ newLimitCap n = ((St.init n).cap : Int))
+    ∧ (∀ c : Int, newTaskRunnerCap c = c)
+    ∧ newCondCap = 0
+    ∧ (∀ w : Int, executeMappersCap w = w)
+    ∧ (∀ w : Int, walkLimitedPoolCap w = w) :=
+  ⟨fun _ => rfl, fun _ => ⟨rfl, rfl⟩, fun _ => rfl, rfl, fun _ => rfl, fun _ => rfl⟩
+
+/-! ## round 5e: the delegation chains as a function of the option list -/
+
+/-- what an extracted argument list hands on in its (last) option position. -/
+def fwdOf (args : List String) : Fwd :=
+  if args.getLast? = some "opts..." then .own else .nothing
+
+/-- **Every hop of every public fx / mr entry point down to `buildOptions`, read from the source, hands on the caller's
+own `opts...`** — so (`entry_cap_own`) the capacity of a stream started through ANY of them with
+ANY option list is `streamCap` of that list (then `fx_walk_cap` / `mr_mappers_cap`).  Seeded change C05-11
+(`MapReduceChan` without `opts...`) turns the second chain into `[.nothing, .own]`: `entry_cap_dropped` — 16 workers
+whatever was asked for. -/
+theorem tie_entry_chains :
+    fwdOf mrMapReduceFwd = .own ∧ fwdOf mrMapReduceChanFwd = .own ∧ fwdOf mrMapReduceVoidFwd = .own
+    ∧ fwdOf mrCoreFwd = .own ∧ fwdOf mrForEachFwd = .own
+    ∧ fwdOf fxWalkFwd = .own ∧ fwdOf fxMapFwd = .own ∧ fwdOf fxFilterFwd = .own ∧ fwdOf fxParallelFwd = .own := by
+  decide
+
+/-- … hence, for all option lists, every entry point runs with the capacity of its caller's options: the chains are
+MapReduce → core, MapReduceChan → core, MapReduceVoid → MapReduce → core, ForEach, Walk, Map/Filter/Parallel → Walk. -/
+theorem tie_entry_caps (opts : List WOpt) :
+    capThrough [fwdOf mrMapReduceFwd, fwdOf mrCoreFwd] opts = streamCap opts
+    ∧ capThrough [fwdOf mrMapReduceChanFwd, fwdOf mrCoreFwd] opts = streamCap opts
+    ∧ capThrough [fwdOf mrMapReduceVoidFwd, fwdOf mrMapReduceFwd, fwdOf mrCoreFwd] opts = streamCap opts
+    ∧ capThrough [fwdOf mrForEachFwd] opts = streamCap opts
+    ∧ capThrough [fwdOf fxWalkFwd] opts = streamCap opts
+    ∧ capThrough [fwdOf fxMapFwd, fwdOf fxWalkFwd] opts = streamCap opts
+    ∧ capThrough [fwdOf fxFilterFwd, fwdOf fxWalkFwd] opts = streamCap opts
+    ∧ capThrough [fwdOf fxParallelFwd, fwdOf fxWalkFwd] opts = streamCap opts := by
+  obtain ⟨h1, h2, h3, h4, h5, h6, h7, h8, h9⟩ := tie_entry_chains
+  simp only [h1, h2, h3, h4, h5, h6, h7, h8, h9]
+  exact ⟨rfl, rfl, rfl, rfl, rfl, rfl, rfl, rfl⟩
+
+/-- `Finish(fns...)` → `MapReduceVoid(…, WithWorkers(len(fns)))` → … and `FinishVoid(fns...)` → `ForEach(…,
+WithWorkers(len(fns)))`: the option position carries exactly that one option (`entry_cap_finish`). -/
+theorem tie_finish_chain :
+    mrFinishFwd.getLast? = some "WithWorkers(len(fns))" ∧ mrFinishVoidFwd.getLast? = some "WithWorkers(len(fns))"
+    ∧ (∀ k : Int, capThrough [.fixed k, fwdOf mrMapReduceVoidFwd, fwdOf mrMapReduceFwd, fwdOf mrCoreFwd] []
+        = streamCap [.withWorkers k])
+    ∧ (∀ k : Int, capThrough [.fixed k, fwdOf mrForEachFwd] [] = streamCap [.withWorkers k]) := by
+  obtain ⟨h1, _, h3, h4, h5, _⟩ := tie_entry_chains
+  refine ⟨by decide, by decide, fun k => ?_, fun k => ?_⟩
+  · simp only [h1, h3, h4]; rfl
+  · simp only [h5]; rfl
+
 end GoZero.C05.Tie
